@@ -180,6 +180,7 @@ fn main() {
         let (sa, sb) = may::os::unix::net::UnixStream::pair().expect("pair");
         let lst = may::net::TcpListener::bind("127.0.0.1:0").expect("bind");
         let laddr = lst.local_addr().unwrap();
+        let lfd = { use std::os::fd::AsRawFd; lst.as_raw_fd() };
         // a listener that never answers: backlog 0 holds one connection, further SYNs are dropped
         let deadl = std::net::TcpListener::bind("127.0.0.1:0").expect("bind");
         let daddr = deadl.local_addr().unwrap();
@@ -620,7 +621,12 @@ fn main() {
             }
             _ => {}
         }
-        if prim == "accept" && std::net::TcpStream::connect(laddr).is_ok() {
+        // the port alone proves nothing: another process (a scenario run in parallel) may have been given the same
+        // ephemeral port after the listener was closed, so the descriptor itself must still be open as well
+        extern "C" {
+            fn fcntl(fd: i32, cmd: i32, ...) -> i32;
+        }
+        if prim == "accept" && unsafe { fcntl(lfd, 1) } != -1 && std::net::TcpStream::connect(laddr).is_ok() {
             ctx.fail("accept: the listener of the cancelled coroutine still accepts connections".into());
         }
         drop(fill);
